@@ -42,13 +42,38 @@ class CubeRead(Contract):
         ci = c.interp.repo.find_class(CUBE + 'SEDCube')
         return dict(cls=ClassVal(ci), filename='flux.fits', order=order)
 
+    def _file(self, c, a):
+        """Content of the cube file: the set-up's while verifying read itself; at a call site the content declared
+        by the caller's contract (`interp.package_cube`) or fresh symbolic content."""
+        if hasattr(self, 'file'):
+            return self.file
+        f = getattr(c.interp, 'package_cube', None)
+        if f is None:
+            M, A, W = c.int('cube_n_models'), c.int('cube_n_ap'), c.int('cube_n_wav')
+            c.assume([M >= 1, A >= 1, W >= 2])
+            f = dict(wav=c.array('cube_wav', (W,)), ap=c.array('cube_ap', (A,)), val=c.array('cube_val', (M, A, W)), unc=c.array('cube_unc', (M, A, W)),
+                     names=c.array('cube_names', (M,), kind='int'), valid=c.array('cube_valid', (M,), kind='int'), dist=c.real('cube_dist_cm'))
+            c.interp.package_cube = f
+        return f
+
+    def result(self, c, a):
+        f = self._file(c, a)
+        M, W = c.A(f['names']).n, c.A(f['wav']).n
+        A = c.A(f['val']).shape[1]
+        attrs = dict(_valid=None, _names=f['names'], _distance=Quantity(f['dist'], U['cm']), _nu=None,
+                     _wav=Quantity(c.fresh_array('cube_r_wav', (W,)), U['micron']),
+                     _apertures=Quantity(f['ap'], U['au']) if f['ap'] is not None else None,
+                     _val=Quantity(c.fresh_array('cube_r_val', (M, A, W)), U['mJy']),
+                     _unc=Quantity(c.fresh_array('cube_r_unc', (M, A, W)), U['mJy']) if f['unc'] is not None else None)
+        return c.obj(CUBE + 'SEDCube', **attrs)
+
     def requires(self, c, a):
-        f = self.file
+        f = self._file(c, a)
         wav = c.A(f['wav'])
         return {'positive': [c.forall(wav.n, lambda k: wav[k] > 0, 'wav>0'), f['dist'] > 0]}
 
     def ensures(self, c, a, result, old):
-        f = self.file
+        f = self._file(c, a)
         wav = c.A(f['wav'])
         n = wav.n
         r_wav = c.attr(result, '_wav')
